@@ -45,22 +45,17 @@ Qed.
 Lemma dry_guard_ok : dry_config_null_guard = true.
 Proof. reflexivity. Qed.
 
-Theorem usage_exit_two q cmd c :
-  q_group_missing_config_ignored q = false ->
-  usage_outcome q cmd c = spec_outcome c.
-Proof.
-  intros H1. destruct c; cbn [usage_outcome spec_outcome]; rewrite ?H1, ?dry_guard_ok; cbn [negb];
-    rewrite ?andb_false_r; cbn [andb]; try reflexivity. destruct (String.eqb cmd "dry"); reflexivity.
-Qed.
+(* Gen fact (source as repaired by d92455c): every linter command passes an existence check of the group-level --config, exit 2 *)
+Lemma group_config_check_ok : group_config_missing_exit = Some 2.
+Proof. reflexivity. Qed.
 
-(* with the flags as found in the code: every class but the listed one *)
-Theorem usage_exit_two_partial q cmd c :
-  c <> UGroupMissingConfig -> usage_outcome q cmd c = spec_outcome c.
+(* every usage class, every command, EVERY quirk vector (the faithful one included) *)
+Theorem usage_exit_two q cmd c : usage_outcome q cmd c = spec_outcome c.
 Proof.
-  intros Hg. destruct c; cbn [usage_outcome spec_outcome]; rewrite ?dry_guard_ok; cbn [negb];
+  destruct c; cbn [usage_outcome spec_outcome]; rewrite ?dry_guard_ok, ?group_config_check_ok; cbn [negb];
     rewrite ?andb_false_r; cbn [andb]; try reflexivity.
   - destruct (String.eqb cmd "dry"); reflexivity.
-  - contradiction.
+  - destruct (q_group_missing_config_ignored q); reflexivity.
 Qed.
 
 (* ---------- violations built for syntax errors ---------- *)
